@@ -28,7 +28,8 @@ def gen(rng, n):
         nodes = scen.canary() + [['d', lay.home + '/tdir', 0o755], ['f', lay.home + '/tdir/in', 'in'], ['f', lay.home + '/tfile', 'tfile']]
         vol = lay.vols[0]
         nodes += [['d', vol + '/tdir2', 0o755], ['f', vol + '/tdir2/in2', 'in2']]
-        where = rng.choice([lay.home, lay.home + '/sub', vol, vol + '/sub'])
+        # (also a directory on the root volume whose name merely BEGINS with the volume's name: /vol1x next to /vol1)
+        where = rng.choice([lay.home, lay.home + '/sub', vol, vol + '/sub', vol + 'x', vol + 'x/sub'])
         nodes.append(['d', where, 0o755])
         tk = rng.choice(['file', 'dir', 'dangling', 'link', 'dir_other_vol', 'above', 'rodir'])
         # 'above': the link points to a directory that CONTAINS the trash directory the link goes to (the home directory, the volume's
@@ -51,6 +52,11 @@ def gen(rng, n):
                     nodes += [['d', t0 + '/files/' + name, 0o755], ['f', t0 + '/files/' + name + '/old', 'left over'], ['d', t0 + '/info', 0o700]]
                 else:
                     nodes += [['l', t0 + '/files/' + name, '/canary/dir'], ['d', t0 + '/info', 0o700]]
+        elif rng.random() < 0.15:
+            # an earlier entry of the same name whose payload is a link that dangles where it now lies (a relative link, trashed before):
+            # os.path.exists does not see the payload, the exclusive create of the .trashinfo is what keeps the two apart
+            for t0 in [lay.home_trash] + [lay.top2(vv) for vv in lay.all_vols if lay.top[vv][1] in ('dir', 'absent')]:
+                nodes += scen.entry(t0, name, '/elsewhere/old/' + name, '2030-01-01T00:00:00', 'l', data='target-next-to-where-it-was.txt')
         slashes = '/' * rng.choice([0, 0, 1, 2, 3])
         via = rng.random() < 0.25
         if via and rng.random() < 0.4 and where.count('/') >= 2:
@@ -88,6 +94,14 @@ def judge(run, scn, meta, res, section='state'):
         run.fail('oracle', "trashing a symbolic link changed something other than the link (its target?)",
                  dict(case, changed=[(esc(p), before.get(p), after.get(p)) for p in ch[:6]]), key='target-touched', section=section)
         return
+    # what was in the trash before is still there, whole
+    for td0 in engine.trash_dirs_in(before):
+        ea0 = engine.entries_of(after, td0)
+        for nm0, e0 in engine.entries_of(before, td0).items():
+            if e0['info'] is not None and e0['payload'] is not None and ea0.get(nm0) != e0:
+                run.fail('oracle', 'trashing a link damaged an entry that was already in the trash', dict(case, trash_dir=td0, name=esc(nm0)),
+                         key='old-entry-damaged', section=section)
+                return
     kernel_says_absent = meta['slashes'] > 0 and meta['tk'] in ('file', 'dangling')
     pairs, strays, orphans = putlib.new_trash_items(before, after)
     forced = '-f' in scn['steps'][0]['argv'][:scn['steps'][0]['argv'].index('--')]
